@@ -50,6 +50,7 @@ fn err_class(e: &imm::Error) -> &'static str {
 
 fn where_is(chain: &[B], slot: u64) -> &'static str {
     match (chain.first(), chain.last()) {
+        (None, _) => "empty-db",
         (Some(a), _) if slot < a.0 => "before-first",
         (_, Some(z)) if slot > z.0 => "beyond-tip",
         _ => if chain.iter().any(|b| b.0 == slot) { "at-a-block-slot" } else { "between-blocks" },
@@ -235,6 +236,16 @@ fn near_misses(chain: &[B], i: usize) -> Vec<String> {
 fn queries(g: &mut Gen, chain: &[B], all: &[B], n: usize, exhaustive: bool) -> Vec<String> {
     let mut q = vec![];
     let exact = |b: &B| format!("from {} {}", b.0, hex(&b.1));
+    if chain.is_empty() {
+        // nothing is immutable (0 or 1 chunk file): every point must be refused / every read empty, also for the
+        // blocks that sit in the skipped newest chunk
+        let probes: Vec<B> = if exhaustive { all.to_vec() } else { (0..n.min(all.len())).map(|_| g.rng.pick(all).clone()).collect() };
+        for b in probes.iter().take(if exhaustive { 60 } else { n }) {
+            q.push(exact(b)); q.push(format!("from {} -", b.0)); q.push(format!("from {} -", b.0 + 1)); q.push(format!("from {} {}", b.0.saturating_sub(1), hex(&b.1)));
+        }
+        q.push("from 0 -".into()); q.push(format!("from {} -", u64::MAX));
+        return q;
+    }
     if exhaustive {
         for (i, b) in chain.iter().enumerate() {
             q.push(exact(b)); q.push(format!("from {} -", b.0)); q.push(format!("from {} -", b.0 + 1)); q.push(format!("from {} -", b.0.saturating_sub(1)));
@@ -266,16 +277,20 @@ pub fn generate(g: &mut Gen) {
     let all: Vec<B> = pool.blocks.iter().map(|b| (b.slot, b.hash)).collect();
     let per_chunk: Vec<Vec<B>> = REAL_CHUNKS.iter().map(|c| pool.blocks.iter().filter(|b| b.chunk == *c).map(|b| (b.slot, b.hash)).collect()).collect();
     // verbatim copies of contiguous subsets of the real chunk files (>= 2 files: the newest is skipped)
-    let subsets: &[&[usize]] = if g.thorough() { &[&[0, 1, 2], &[0, 1], &[1, 2]] } else { &[&[0, 1, 2]] };
+    // every contiguous subset in the thorough tier, also the single-file ones and the empty directory
+    // (the newest file is never immutable, so those hold no immutable block at all)
+    let subsets: &[&[usize]] = if g.thorough() { &[&[0, 1, 2], &[0, 1], &[1, 2], &[0], &[1], &[2], &[]] } else { &[&[0, 1, 2], &[2], &[1], &[]] };
     for sub in subsets {
         let groups: Vec<&Vec<B>> = sub.iter().map(|i| &per_chunk[*i]).collect();
         let blocks: Vec<B> = groups.iter().flat_map(|g| g.iter().cloned()).collect();
-        let immutable: usize = groups[..groups.len() - 1].iter().map(|g| g.len()).sum();
+        let immutable: usize = groups[..groups.len().saturating_sub(1)].iter().map(|g| g.len()).sum();
         let mut ops = vec![format!("realdb {} {} {}", groups.len(), groups.iter().map(|g| g.len().to_string()).collect::<Vec<_>>().join(" "),
             blocks.iter().map(tok).collect::<Vec<_>>().join(" "))];
         ops.push("readall".into()); ops.push("tip".into()); ops.push("origin".into());
         let n = if g.thorough() { 150 } else { 14 };
-        ops.extend(queries(g, &blocks[..immutable], &blocks, n, false));
+        let probe: Vec<B> = if blocks.is_empty() { all[..40].to_vec() } else { blocks.clone() };
+        ops.extend(queries(g, &blocks[..immutable], &probe, n, false));
+        if immutable == 0 { g.case(ops); continue; }
         // near misses around the first and last block of every immutable chunk, the first block of the chain and a sample
         {
             let chain = &blocks[..immutable];
@@ -317,7 +332,17 @@ pub fn generate(g: &mut Gen) {
                 let stride = if g.rng.chance(1, 3) { g.rng.range(2, 40) as usize } else { 1 };
                 let start = g.rng.below((all.len() - total * stride) as u64) as usize;
                 let blocks: Vec<B> = (0..total).map(|i| all[start + i * stride]).collect();
-                let k = g.rng.range(2, 6.min(total as u64)) as usize;
+                let k = match g.rng.below(8) { 0 => 0, 1 => 1, _ => g.rng.range(2, 6.min(total as u64)) as usize };
+                if k <= 1 {
+                    // an empty directory, or a single (hence volatile) chunk file: no immutable block
+                    let held: Vec<B> = if k == 0 { vec![] } else { blocks.clone() };
+                    ops.push(format!("db {}{}{}", k, if k == 1 { format!(" {}", total) } else { String::new() }, held.iter().map(|b| format!(" {}", tok(b))).collect::<String>()));
+                    ops.push("readall".into()); ops.push("tip".into()); ops.push("origin".into());
+                    let n = g.rng.range(4, 10) as usize;
+                    ops.extend(queries(g, &[], &blocks, n, case % 12 == 0));
+                    g.case(ops);
+                    continue;
+                }
                 // k non-empty chunks
                 let mut cuts: Vec<usize> = (1..total).collect();
                 let mut chosen = vec![];
